@@ -54,7 +54,7 @@ TRUSTED = ["float32 arithmetic of upgma/nj modelled as exact rational arithmetic
 ASSUMPTIONS = ["additivity of a distance matrix is the four-point condition; that the path metric of every tree with "
                "non-negative branch lengths satisfies it is proved (C19_tree_metric_four_point), the converse direction of "
                "Buneman's theorem (every four-point matrix comes from a tree) is not needed and not proved"]
-LEVEL_TEXT = ("Lean theorems for all inputs on the executable model (30, no sorry); every clause of the property is a "
+LEVEL_TEXT = ("Lean theorems for all inputs on the executable model (39, no sorry); every clause of the property is a "
               "theorem: UPGMA and NJ leaves = every index exactly once (loop invariant + termination, NJ incl. the "
               "three-way join); NJ totality (every accepted matrix, zero distances and ties included, yields a tree); "
               "UPGMA merge height = half the average linkage of the merged clusters, every leaf under a node at distance "
@@ -66,7 +66,9 @@ LEVEL_TEXT = ("Lean theorems for all inputs on the executable model (30, no sorr
               "final three-way join; distance_to/get_distance = explicit downward path sums through the LCA, LCA = longest "
               "common prefix; T.rows is the matrix of distance_to queries; as_binary(Tree) is binary, keeps the leaf order "
               "and every leaf-to-leaf distance_to answer; copy; Newick round trip for any arity, labels None or LabelsOk, "
-              "with/without distances, under arbitrary injected whitespace; three defect witnesses. The model is tied to "
+              "with/without distances, under arbitrary injected whitespace; refusals proved to happen exactly where the "
+              "hypotheses end (upgma/nj/Tree()/to_newick rejects theorems, reader never abstains); five defect witnesses. "
+              "The model is tied to "
               "the Cython code by the correspondence stream; float32 rounding, Python float formatting and numpy helpers "
               "are modelled, not verified.")
 LEVEL_NOTE = "float32 rounding, Python float formatting/parsing and numpy validation helpers are modelled, not verified"
@@ -94,6 +96,8 @@ def gen_lean():
             "namespace BiotiteModel.Gen.C19",
             "/-- `illegal_chars` of `TreeNode.to_newick` (code points). -/",
             "def illegalChars : List Nat := [" + ", ".join(str(ord(c)) for c in chars) + "]",
+            "/-- Code points Python's `str.isspace` accepts (what `str.split()`/`strip()` remove), from the running interpreter. -/",
+            "def whitespace : List Nat := [" + ", ".join(str(c) for c in range(0x110000) if chr(c).isspace()) + "]",
             "/-- `neighbor_joining` raises ValueError below this many rows. -/",
             f"def njMinNodes : Nat := {int(m2.group(1))}",
             "end BiotiteModel.Gen.C19", ""]
@@ -427,6 +431,60 @@ def cases(rng, tier):
                 S = S * q // math.gcd(S, q)
             m = [[(0 if (i < k) == (j < k) else c * S) for j in range(n)] for i in range(n)]
             yield _matrix_case("nj_blocks", "nj", m, True, additive=True)
+    # ---------------- audit: regions the theorems' hypotheses exclude but the API accepts
+    # (a) symmetric only up to np.allclose (rounding noise) -- oracle only, judged against the symmetrised matrix
+    for _ in range(12 if quick else 150):
+        n = rng.choice([3, 4, 5, 8])
+        algo = rng.choice(["upgma", "nj"]) if n >= 4 else "upgma"
+        tree = _rand_tree(rng, n, dist=lambda r: r.choice([r.random(), r.random() * 10, 1.0]), unary=0.1)
+        m = [[float(x) for x in row] for row in _additive(tree, n)]
+        for i in range(n):
+            for j in range(n):
+                if i != j:
+                    m[i][j] *= 1 + rng.uniform(-2e-7, 2e-7)
+        yield _matrix_case(algo + "_nearsym", algo, m, False, additive=True)
+    # (b) non-zero diagonal: never checked by the code; exact correspondence (the model reads it like nj.pyx)
+    for _ in range(12 if quick else 150):
+        n = rng.choice([2, 3, 4, 5, 6])
+        algo = rng.choice(["upgma", "nj"])
+        S = 2 ** max(n - 2, 0) * _lcm_products(max(n, 2))
+        for q in range(1, max(n - 1, 1)):
+            S = S * q // math.gcd(S, q)
+        m = _sym_matrix(rng, n, 6)
+        for i in range(n):
+            m[i][i] = rng.choice([0, 1, 3, 7])
+        yield _matrix_case("matrix_diag", algo, [[x * S for x in row] for row in m], True)
+    # (c) larger neighbour joining inputs than the exact stream allows (oracle only)
+    for n in ([30, 60] if quick else [20, 30, 45, 60, 90, 120]):
+        tree = _rand_tree(rng, n, dist=lambda r: float(r.choice([0, 1, 2, 3, 5, 8])) if r.random() < 0.5
+                          else r.randint(1, 64) / 8.0, unary=0.05)
+        yield _matrix_case("nj_large", "nj", [[float(x) for x in row] for row in _additive(tree, n)], False, additive=True)
+    # (d) duplicate labels / duplicate leaf indices
+    for _ in range(6 if quick else 60):
+        n = rng.choice([2, 3, 4])
+        tree = _rand_tree(rng, n)
+        labels = _rand_labels(rng, n)
+        a, b = rng.sample(range(n), 2)
+        labels[b] = labels[a]
+        inc = rng.choice([0, 1])
+        yield {"kind": "label_dup", "tree": tree, "labels": labels, "inc": inc, "ws_seed": None,
+               "ops": [f"write {inc} {_labels(labels)} {_tok(tree)}",
+                       f"read {_labels(labels)} {_str(_py_newick(tree, labels, bool(inc)) + ';')}"]}
+        dup = _tok(tree).replace("L%d" % b, "L%d" % a)
+        yield {"kind": "tree_dup_index", "tok": dup, "a": a, "b": b,
+               "ops": [f"write 1 - {dup}", f"dist 0 {a} {b} {dup}", f"dist 0 {b} {a} {dup}", f"binary {dup}", f"copy {dup}"]}
+    # (e) Newick tokens `float()` / `int()` accept beyond plain decimals
+    for _ in range(10 if quick else 100):
+        toks = [rng.choice(["1e-05", "2.5E+3", "inf", "nan", "1_000.5", ".5", "5.", "+3", "-0.0", "Infinity",
+                            "1e400", "-inf", "٣.٥", "1e-46", "3.4e38", "0.1", "1E2"]) for _ in range(3)]
+        labs = [rng.choice(["+0", "0_0", "00", "٠", "-0"]), "1", rng.choice(["2", "+2", "0_2", "٢"])]
+        yield {"kind": "newick_tokens", "toks": toks, "labs": labs}
+    for _ in range(10 if quick else 100):
+        # exponent notation that is float32-exact: also through the model
+        forms = [("2.5e2", "250"), ("25E-1", "5/2"), ("1.25E+2", "125"), ("5e0", "5"), ("-75e-2", "-3/4"), ("+1e1", "10")]
+        pick = [rng.choice(forms) for _ in range(3)]
+        text = f"(0:{pick[0][0]},(1:{pick[1][0]},+2:{pick[2][0]}):1E0);"
+        yield {"kind": "newick_exponent", "ops": [f"read - {_str(text)}", f"nread - {_str(text[:-1])}"]}
     # ---------------- finite but huge entries: float32 sums overflow (oracle only)
     for _ in range(4 if quick else 30):
         n = rng.choice([4, 5, 6])
@@ -494,10 +552,20 @@ def cases(rng, tier):
     # ---------------- trees
     for _ in range(70 if quick else 1200):
         yield from _tree_cases(rng, tier)
+    # larger trees than the bundles above (the sizes were capped at 11 leaves)
+    for n_big in ([120, 300] if quick else [60, 120, 300, 500]):
+        tree = _rand_tree(rng, n_big)
+        tok = _tok(tree)
+        yield {"kind": "binary", "tree": tree, "ops": [f"binary {tok}"]}
+        yield {"kind": "copy", "tree": tree, "ops": [f"copy {tok}"]}
+        s_big = _py_newick(tree, None, True) + ";"
+        yield {"kind": "newick", "tree": tree, "labels": None, "inc": 1, "ws_seed": rng.randint(0, 10**9),
+               "ops": [f"write 1 - {tok}", f"read - {_str(s_big)}"]}
     # float-valued trees: oracle only
     for _ in range(25 if quick else 400):
         n = rng.choice([2, 3, 5, 9])
-        tree = _rand_tree(rng, n, dist=lambda r: r.choice([r.random(), r.random() * 1e-3, r.random() * 1e4, 0.1, 1 / 3]))
+        tree = _rand_tree(rng, n, dist=lambda r: r.choice([r.random(), r.random() * 1e-3, r.random() * 1e4, 0.1, 1 / 3,
+                                                             1e20, 3e38, 1e-30, 1e-45, -r.random(), 123456789.0]))
         labels = None if rng.random() < 0.5 else _rand_labels(rng, n)
         yield {"kind": "newick_float", "tree": tree, "labels": labels, "inc": 1, "ws_seed": rng.randint(0, 10**9)}
         yield {"kind": "binary_float", "tree": tree}
@@ -940,10 +1008,51 @@ def _oracle_matrix_inner(case):
     M = [[(x if isinstance(x, float) else Fraction(x)) for x in row] for row in raw]
     n = len(M)
     arr = np.array([[float(x) for x in row] for row in M], dtype=np.float64).reshape(n, n)
-    finite = all(math.isfinite(float(x)) and float(x) < 3.4e38 for row in M for x in row)
-    valid = finite and all(M[i][j] == M[j][i] and M[i][j] >= 0 for i in range(n) for j in range(n)) \
-        and all(M[i][i] == 0 for i in range(n)) and n >= (4 if algo == "nj" else 2)
     fn = phylo.upgma if algo == "upgma" else phylo.neighbor_joining
+    finite = all(math.isfinite(float(x)) and float(x) < 3.4e38 for row in M for x in row)
+    # --- classes the documented contract refuses: ValueError for asymmetric (beyond np.allclose), negative,
+    #     NaN / infinite entries and, for neighbour joining, fewer than four taxa
+    asym = finite and any(abs(float(M[j][i]) - float(M[i][j])) > 1e-8 + 1e-5 * abs(float(M[i][j]))
+                          for i in range(n) for j in range(n))
+    negative = any(float(x) < 0 for row in M for x in row if not math.isnan(float(x)))
+    must_refuse = (not finite) or asym or negative or (algo == "nj" and n < 4) or n == 0
+    if must_refuse:
+        before = arr.tobytes()
+        try:
+            r = fn(arr)
+        except Exception as e:  # noqa: BLE001
+            if arr.tobytes() != before:
+                return [(f"C19/{algo}/input-matrix-modified", f"a refused call changed the matrix {desc}")]
+            if not isinstance(e, ValueError) and not (n == 0 and isinstance(e, IndexError)):
+                return [(f"C19/{algo}/wrong-exception-for-invalid-matrix",
+                         f"{type(e).__name__}: {e} (the documented refusal is ValueError) for {desc}")]
+            return []
+        return [(f"C19/{algo}/accepts-non-finite" if not finite else f"C19/{algo}/accepts-invalid-matrix",
+                 f"{algo} returned {type(r).__name__} for a matrix that is "
+                 f"{'non-finite' if not finite else 'asymmetric' if asym else 'negative' if negative else 'too small'}: {desc}")]
+    # --- accepted although not a distance matrix in the strict sense: non-zero diagonal (never checked by the
+    #     code).  UPGMA never reads the diagonal; NJ adds it to the divergences (model does the same).
+    if any(M[i][i] != 0 for i in range(n)):
+        try:
+            t = fn(arr)
+        except Exception as e:  # noqa: BLE001
+            return [(f"C19/{algo}/rejects-valid-matrix", f"non-zero diagonal: {type(e).__name__}: {e} for {desc}")]
+        if not isinstance(t, phylo.Tree) or sorted(int(x) for x in t.root.get_indices()) != list(range(n)):
+            return [(f"C19/{algo}/leaves", f"non-zero diagonal: result {t!r} for {desc}")]
+        if algo == "upgma":
+            z = arr.copy()
+            np.fill_diagonal(z, 0)
+            if fn(z).to_newick() != t.to_newick():
+                return [("C19/upgma/diagonal-changes-tree", f"{desc}")]
+        return []
+    if n == 1 and algo == "upgma":
+        t = fn(arr)
+        return [] if isinstance(t, phylo.Tree) and len(t) == 1 else [("C19/upgma/leaves", f"1x1 matrix gives {t!r}")]
+    # --- symmetric only up to np.allclose (rounding noise): judged against the symmetrised matrix
+    noise = max([abs(float(M[j][i]) - float(M[i][j])) for i in range(n) for j in range(n)] + [0.0])
+    if noise:
+        M = [[(float(M[i][j]) + float(M[j][i])) / 2 for j in range(n)] for i in range(n)]
+    valid = True
     v = []
     arr_before = arr.tobytes()
     try:
@@ -951,20 +1060,12 @@ def _oracle_matrix_inner(case):
     except Exception as e:  # noqa: BLE001
         if arr.tobytes() != arr_before:
             return [(f"C19/{algo}/input-matrix-modified", f"a refused call changed the matrix {desc}")]
-        if valid:
-            v.append((f"C19/{algo}/rejects-valid-matrix", f"{type(e).__name__}: {e} for {desc}"))
-        return v
+        return [(f"C19/{algo}/rejects-valid-matrix", f"{type(e).__name__}: {e} for {desc}")]
     if not isinstance(tree, phylo.Tree):
-        if valid:
-            return [(f"C19/{algo}/returns-no-tree", f"{algo} returned {tree!r} instead of a Tree for {desc}")]
-        return v
-    if not finite:
-        return [(f"C19/{algo}/accepts-non-finite", f"no error for {desc}")]
-    if not valid:
-        return v            # the property says nothing about what is returned for invalid matrices
+        return [(f"C19/{algo}/returns-no-tree", f"{algo} returned {tree!r} instead of a Tree for {desc}")]
     exact = bool(case.get("exact"))
     mx = max([float(x) for row in M for x in row] + [1.0])
-    tol = 0 if exact else 2e-5 * mx * n
+    tol = 0 if exact else 2e-5 * mx * n + 4 * n * noise
     # (1) every input index is exactly one leaf
     idx = sorted(int(x) for x in tree.root.get_indices())
     if idx != list(range(n)) or len(tree) != n or any(tree.leaves[i] is None or tree.leaves[i].index != i for i in range(n)):
@@ -1004,7 +1105,8 @@ def _oracle_matrix_inner(case):
             for c in ch:
                 if float(c.distance) < -tol:
                     return [("C19/upgma/negative-branch", f"{c.distance}")]
-    v += _input_checks(fn, algo, M, n, desc, big)
+    if not noise:
+        v += _input_checks(fn, algo, M, n, desc, big)
     if v:
         return v
     if algo == "nj":
@@ -1032,15 +1134,21 @@ def _oracle_matrix_inner(case):
     return v
 
 
+def _fr(x):
+    """Exact value of a float; non-finite values as tags (nan compares equal to nan here)."""
+    x = float(x)
+    return Fraction(x) if math.isfinite(x) else repr(x)
+
+
 def _struct(node, with_dist):
     if node.is_leaf():
         return node.index
-    return [[(Fraction(c.distance) if with_dist else 0), _struct(c, with_dist)] for c in node.children]
+    return [[(_fr(c.distance) if with_dist else 0), _struct(c, with_dist)] for c in node.children]
 
 
 def _pair_dists(tree):
     n = len(tree)
-    return [[Fraction(_gd(tree, i, j)) for j in range(n)] for i in range(n)]
+    return [[_fr(_gd(tree, i, j)) for j in range(n)] for i in range(n)]
 
 
 def _oracle_newick(case):
@@ -1064,8 +1172,15 @@ def _oracle_newick_inner(case, phylo, labels, inc):
     try:
         s = tree.to_newick(labels=labels, include_distance=inc)
     except Exception as e:  # noqa: BLE001
-        if labels is not None and (len(labels) < n or has_illegal):
+        # documented/legitimate refusals only: ValueError for an illegal character, IndexError for a label list
+        # that is too short (UnboundLocalError for the empty list: the source's loop variable)
+        short = labels is not None and any(i >= len(labels) for i in _leaves(case["tree"]))
+        if has_illegal and isinstance(e, ValueError):
             return []
+        if short and isinstance(e, (IndexError, UnboundLocalError)):
+            return []
+        if has_illegal or short:
+            return [("C19/newick/wrong-exception-for-bad-labels", f"{type(e).__name__}: {e} for labels {labels!r}")]
         return [("C19/newick/writer-rejects-valid-tree", f"{type(e).__name__}: {e}")]
     if has_illegal:
         return [("C19/newick/illegal-character-accepted", f"labels {labels!r} written as {s!r}")]
@@ -1075,7 +1190,7 @@ def _oracle_newick_inner(case, phylo, labels, inc):
     elif any(l == "" for l in used):
         key = "C19/newick/empty-label"
     elif len(set(used)) != len(used):
-        return []
+        key = "C19/newick/duplicate-labels-read-silently"
     else:
         key = "C19/newick/roundtrip"
     try:
@@ -1158,7 +1273,13 @@ def _oracle_binary(case, tol=0):
     n = len(tree)
     for i in range(n):
         for j in range(n):
-            x, y = Fraction(_gd(b, i, j)), Fraction(_gd(tree, i, j))
+            x, y = _fr(_gd(b, i, j)), _fr(_gd(tree, i, j))
+            if isinstance(x, str) or isinstance(y, str):
+                if tol and (isinstance(x, str) or abs(float(x)) > 1e38) and (isinstance(y, str) or abs(float(y)) > 1e38):
+                    continue        # float32 overflow of a sum of huge branch lengths: order of additions matters
+                if x != y:
+                    return [("C19/as_binary/distance-changed", f"d({i},{j}) {y} -> {x}: {tree.to_newick()[:200]}")]
+                continue
             if not _close(x, y, tol * max(1.0, abs(float(y)))):
                 return [("C19/as_binary/distance-changed", f"d({i},{j}) {float(y)} -> {float(x)}: {tree.to_newick()} -> {b.to_newick()}")]
     if _dump(tree.root) != before:
@@ -1368,8 +1489,8 @@ def _oracle_api(case):
         try:
             if tree.to_newick(labels=lv) != tree.to_newick(labels=labels):
                 bad("spelling", f"labels as {type(lv).__name__} give another string")
-        except (TypeError, ValueError):
-            pass
+        except Exception as e:  # noqa: BLE001
+            bad("spelling", f"labels as {type(lv).__name__} of {type(lv[0]).__name__}: {type(e).__name__}: {e}")
     for _ in range(4):
         i, j = rr.randrange(n), rr.randrange(n)
         want = snap[2][i][j]
@@ -1381,7 +1502,8 @@ def _oracle_api(case):
                 got = tree.get_distance(conv(i), conv(j))
                 gt = tree.get_distance(conv(i), conv(j), np.bool_(True))
                 g1_ = tree.get_distance(i, j, 1)
-            except (TypeError, IndexError, OverflowError):
+            except Exception as e:  # noqa: BLE001
+                bad("spelling", f"get_distance({conv.__name__}({i}), {conv.__name__}({j})): {type(e).__name__}: {e}")
                 continue
             if got != want or gt != wt or g1_ != wt:
                 bad("spelling", f"get_distance({conv.__name__}({i}), {conv.__name__}({j})) = {got}, int arguments give {want}")
@@ -1389,8 +1511,8 @@ def _oracle_api(case):
             neg = tree.get_distance(i - n, j - n)
             if neg != want:
                 bad("spelling", f"get_distance({i - n}, {j - n}) = {neg} but get_distance({i}, {j}) = {want}")
-        except IndexError:
-            pass
+        except Exception as e:  # noqa: BLE001
+            bad("spelling", f"get_distance({i - n}, {j - n}): {type(e).__name__}: {e}")
         a, b = tree.leaves[i], tree.leaves[j]
         if a.distance_to(b) != want or a.distance_to(b, topological=True) != wt or b.distance_to(a, False) != want:
             bad("levels", "TreeNode.distance_to and Tree.get_distance differ")
@@ -1399,9 +1521,17 @@ def _oracle_api(case):
             nd = phylo.TreeNode(index=conv(3))
             if nd.index != 3 or not nd.is_leaf():
                 bad("spelling", f"TreeNode(index={conv.__name__}(3)).index = {nd.index}")
-        except (TypeError, OverflowError):
-            pass
+        except Exception as e:  # noqa: BLE001
+            bad("spelling", f"TreeNode(index={conv.__name__}(3)): {type(e).__name__}: {e}")
     for val in (1.5, np.float64(1.5), 2, True):
+        try:
+            nd = phylo.TreeNode([phylo.TreeNode(index=0)], [val])
+            if nd.children[0].distance != float(val):
+                bad("spelling", f"distance given as {type(val).__name__} stored as {nd.children[0].distance}")
+        except Exception as e:  # noqa: BLE001
+            bad("spelling", f"distance given as {type(val).__name__}: {type(e).__name__}: {e}")
+    for val in (np.float32(1.5), np.int64(2), np.float16(1.5)):
+        # refused by the explicit isinstance(float|int) check: must stay a clean TypeError, never a wrong value
         try:
             nd = phylo.TreeNode([phylo.TreeNode(index=0)], [val])
             if nd.children[0].distance != float(val):
@@ -1434,6 +1564,7 @@ def _flat_dists(node):
 def _oracle_refused(case):
     """A call that raises changes neither the receiver nor its arguments."""
     import random as _r
+    from biotite import InvalidFileError
     from biotite.sequence import phylo
     rr = _r.Random(case["seed"])
     tree = phylo.Tree(_build(case["tree"]))
@@ -1467,7 +1598,7 @@ def _oracle_refused(case):
     refused("to_newick-short-labels", lambda: tree.to_newick(labels=short), (IndexError, UnboundLocalError),
             lambda: short == labels[:n - 1])
     refused("get_distance-out-of-range", lambda: tree.get_distance(0, n + rr.randint(0, 3)), (IndexError,))
-    refused("from_newick-garbage", lambda: phylo.Tree.from_newick("((0,1)", None), (Exception,))
+    refused("from_newick-garbage", lambda: phylo.Tree.from_newick("((0,1)", None), (InvalidFileError, ValueError))
     lab2 = list(labels)
     refused("from_newick-unknown-label", lambda: phylo.Tree.from_newick("(zz,l0);", lab2), (ValueError,), lambda: lab2 == labels)
     foreign = phylo.Tree(_build(case["tree"]))
@@ -1512,6 +1643,47 @@ def _oracle_refused(case):
     return V[:3]
 
 
+def _oracle_tokens(case):
+    """`from_newick` reads every distance token `float()` accepts as float32(float(token)) and every index
+    label `int()` accepts as that int."""
+    import numpy as np
+    from biotite.sequence import phylo
+    toks, labs = case["toks"], case["labs"]
+    text = f"({labs[0]}:{toks[0]},({labs[1]}:{toks[1]},{labs[2]}:{toks[2]}):1.0);"
+    try:
+        t = phylo.Tree.from_newick(text)
+    except Exception as e:  # noqa: BLE001
+        return [("C19/newick/rejects-python-number-token", f"{text!r}: {type(e).__name__}: {e}")]
+    leaves = t.root.get_leaves()
+    got_idx = [l.index for l in leaves]
+    if got_idx != [int(x) for x in labs]:
+        return [("C19/newick/index-label-misread", f"{text!r}: leaf indices {got_idx}")]
+    with np.errstate(over="ignore"):
+        want = [float(np.float32(float(x))) for x in toks]
+    got = [float(l.distance) for l in leaves]
+    for g, w in zip(got, want):
+        if not (g == w or (math.isnan(g) and math.isnan(w))):
+            return [("C19/newick/distance-token-misread", f"{text!r}: distances {got}, float32(float(token)) = {want}")]
+    # written again and read again: the same values (nan-aware)
+    back = phylo.Tree.from_newick(t.to_newick())
+    got2 = [float(l.distance) for l in back.root.get_leaves()]
+    if any(not (a == b or (math.isnan(a) and math.isnan(b))) for a, b in zip(got, got2)):
+        return [("C19/newick/roundtrip", f"{text!r}: {got} -> {got2}")]
+    return []
+
+
+def _oracle_dup_index(case):
+    from biotite.sequence import phylo
+    try:
+        t = phylo.Tree(_build(_parse_tok(case["tok"])))
+    except phylo.TreeError:
+        return []          # refusing would be the right thing
+    if any(x is None for x in t.leaves) or len({l.index for l in t.root.get_leaves()}) != len(t):
+        return [("C19/construct/duplicate-leaf-indices-accepted",
+                 f"Tree() accepts {case['tok']}: len {len(t)}, leaves {[None if x is None else x.index for x in t.leaves]}")]
+    return []
+
+
 def _oracle_binnode(case):
     from biotite.sequence import phylo
     node = _build(case["tree"])
@@ -1536,7 +1708,7 @@ def _oracle(case):
     k = case.get("kind", "")
     if "matrix" in case or "big" in case:
         return _oracle_matrix(case)
-    if k in ("newick", "newick_float", "label_illegal", "label_ws", "label_empty", "label_short"):
+    if k in ("newick", "newick_float", "label_illegal", "label_ws", "label_empty", "label_short", "label_dup"):
         return _oracle_newick(case)
     if k == "dist":
         return _oracle_dist(case)
@@ -1548,6 +1720,10 @@ def _oracle(case):
         return _oracle_copy(case)
     if k == "binnode":
         return _oracle_binnode(case)
+    if k == "newick_tokens":
+        return _oracle_tokens(case)
+    if k == "tree_dup_index":
+        return _oracle_dup_index(case)
     if k == "accessors":
         return _oracle_accessors(case)
     if k == "api":
